@@ -16,9 +16,10 @@ vars == <<l, cs, sent, viol, nv>>
 
 NoRq == [method |-> "GET", version |-> "1.1", api |-> "flow", despite |-> FALSE, target |-> "/", hosthex |-> "", hostporthex |-> "", added |-> <<>>, orig |-> <<>>]
 
+NoHead == [method |-> "", target |-> "", version |-> "", fields |-> <<>>, complete |-> FALSE, same_as_ref |-> FALSE, chunked_after |-> "na"]
 Init ==
   /\ l = 1
-  /\ cs = [id |-> "none", prop |-> "C02", rq |-> NoRq, lens |-> <<>>, chk |-> FALSE]
+  /\ cs = [id |-> "none", prop |-> "C02", rq |-> NoRq, lens |-> <<>>, chk |-> FALSE, head |-> NoHead]
   /\ sent = 0
   /\ viol = <<>>
   /\ nv = [mine |-> 0, other |-> 0]
@@ -32,7 +33,7 @@ E == Rec[l]
 
 TCase ==
   /\ E.ev = "case"
-  /\ cs' = [id |-> E.id, prop |-> E.prop, rq |-> E.rq, lens |-> E.lens, chk |-> E.chk_orig]
+  /\ cs' = [id |-> E.id, prop |-> E.prop, rq |-> E.rq, lens |-> E.lens, chk |-> E.chk_orig, head |-> NoHead]
   /\ sent' = 0
   /\ Step({})
 
@@ -50,6 +51,14 @@ TWrite ==
 THead ==
   /\ E.ev = "head"
   /\ Step(IF Validate(cs.rq) = "reject" THEN {} ELSE HeadFails(cs.rq, E, cs.chk))
+  \* the reference head (the first one of a case) is what the view is compared with
+  /\ cs' = IF cs.head.complete THEN cs ELSE [cs EXCEPT !.head = E]
+  /\ UNCHANGED sent
+
+\* extra X04: the flow's own description of the request it is sending
+TView ==
+  /\ E.ev = "view"
+  /\ Step(ViewFails(cs.rq, cs.head, E))
   /\ UNCHANGED <<cs, sent>>
 
 TPanic ==
@@ -57,7 +66,7 @@ TPanic ==
   /\ Step({<<cs.prop, E.ev \o " during " \o E.during>>})
   /\ UNCHANGED <<cs, sent>>
 
-Next == l <= N /\ (TCase \/ TRun \/ TWrite \/ THead \/ TPanic)
+Next == l <= N /\ (TCase \/ TRun \/ TWrite \/ THead \/ TView \/ TPanic)
 Spec == Init /\ [][Next]_vars
 
 Report == l = N + 1 => Verdict(N, viol, nv, [comp |-> "SendHead"])
